@@ -48,7 +48,7 @@ def scalar_replay(ctx, name, kind, xs, D, fl, mode):
   mode 'subgrad': check cost(y) >= cost(x) - force(x)*(y-x) on the real outputs"""
 
   def _rp(model):
-    mv = lambda v: float(kh.mval(model, v))
+    mv = lambda v: L.mvalf(model, v)
     Dv, flv = mv(D), mv(fl)
     pts = [mv(x) for x in xs]
     res = L.real_eval([[kind == "equality", kind == "friction", False, p, Dv, (flv if kind == "friction" else 0.0), 0, -1, 0.0, 0.0, 0.0, 0.0, 0.0] for p in pts])
@@ -148,7 +148,7 @@ def unit_gather_scalar(track):
 
 def elliptic_replay(ctx, name, E, dim, F=None, mode="ref"):
   def _rp(model):
-    mv = lambda v: float(kh.mval(model, v))
+    mv = lambda v: L.mvalf(model, v)
     D, fr, mu = [mv(v) for v in E["D"]], [mv(v) for v in E["fr"]], mv(E["mu"])
     x = [mv(v) for v in E["jar"]]
     rx = L.real_eval(L.elliptic_args(x, D, mu, fr))
@@ -291,7 +291,7 @@ def goal_jaref_total(spec, pre, post):
   env = spec["env"]
   nv, dpt, sparse, compact = int(env["nv"]), int(env["dpt"]), bool(env["sparse"]), bool(env["compact"])
   got = float(post["ctx_Jaref_out"][w, e]) - (float(pre["ctx_Jaref_out"][w, e]) if env.get("atomic") else 0.0)
-  aref = float(pre["efc_aref_in"][w, e])
+  aref = float(pre["efc_aref_in"][w, e]) if (sparse or ds == 0) else 0.0
   if sparse:
     adr, nnz = int(pre["efc_J_rowadr_in"][w, e]), int(pre["efc_J_rownnz_in"][w, e])
     want = -aref
@@ -308,6 +308,19 @@ def goal_jaref_total(spec, pre, post):
   return lib.approx(got, want), f"Jaref[{w},{e}] contribution of thread {spec['tid']} = {got}; expected {want}"
 
 
+def dense_shapes(kt, nv):
+  """dense layout: efc_J (nworld, njmax, >= nv), qacc (nworld, >= nv), aref / Jaref (nworld, njmax), nefc (nworld)"""
+  A = kt.args
+  w, e = kt.tid[0], kt.tid[1]
+  nworld, njmax = A["efc_J_in"].cell.shape[0], A["efc_J_in"].cell.shape[1]
+  out = [w >= 0, cmp("<", w, nworld), e >= 0, cmp("<", e, njmax), cmp(">=", A["efc_J_in"].cell.shape[2], nv), cmp(">=", A["qacc_in"].cell.shape[1], nv)]
+  for lab in ("nefc_in", "qacc_in", "efc_aref_in", "ctx_Jaref_out"):
+    out.append(cmp("==", A[lab].cell.shape[0], nworld))
+  for lab in ("efc_aref_in", "ctx_Jaref_out"):
+    out.append(cmp("==", A[lab].cell.shape[1], njmax))
+  return out
+
+
 def unit_jaref(name, is_sparse, nv, dpt, compact, U):
   def run(ctx):
     from mujoco_warp._src import solver
@@ -320,10 +333,14 @@ def unit_jaref(name, is_sparse, nv, dpt, compact, U):
     split = (not is_sparse) and dpt < nv
     env = {"nv": nv, "dpt": dpt, "sparse": is_sparse, "compact": compact, "atomic": split, "randomize_floats": 2}
     if not split:
-      kt = lib.kernel_thread(k, unroll=U, cap=max(U, nv) + 2, alias_inout=False, tid=(z3.Int("w"), z3.Int("e"), 0))
+      kt = lib.kernel_thread(k, unroll=U, cap=max(U, nv) + 2, alias_inout=False, tid=(z3.Int("w"), z3.Int("e"), 0), assume_bounds=not is_sparse)
       w, e, _ = kt.tid
       live = e < kt.pre("nefc_in", w)
-      sess = ctx.session(kt.bg + [w >= 0, e >= 0] + ([kt.pre("efc_J_rownnz_in", w, e) >= 0] if is_sparse else []))
+      if is_sparse:
+        ctx.assume("sparse layout invariants instead of assuming in-bounds accesses: per-world arrays have nworld rows, 0 <= rowadr, rownnz, rowadr+rownnz <= capacity, column indices in [0, nv)" + (", dof_cdof entries in [-1, ncdof)" if compact else ""))
+        sess = ctx.session(kt.bg + L.sparse_layout_pre(kt, U, compact, "qacc_in") + [cmp("<=", kt.pre("efc_J_rownnz_in", w, e), U)])
+      else:
+        sess = ctx.session(kt.bg + dense_shapes(kt, nv))
       ctx.reach(sess, "twin:live-row", live)
       names = {"w": w, "e": e}
       rp = lib.make_replay(ctx, kt, loc, "jaref", "goal", goal="checks.c06:goal_jaref_total", env=env)
@@ -341,6 +358,7 @@ def unit_jaref(name, is_sparse, nv, dpt, compact, U):
               term = ite(cc >= 0, arith("*", kt.pre("efc_J_in", w, 0, adr + i), kt.pre("qacc_in", w, cc)), 0.0)
             want = arith("+", want, term)
           ctx.prove(sess, f"Jaref==J.qacc-aref/rownnz={n}", And(kt.written("ctx_Jaref_out", w, e), cmp("==", out, arith("-", want, aref))), And(live, nnz == n), names=names, replay=rp, desc=f"sparse Jaref differs from J.qacc - aref ({n} non-zeros)")
+        L.prove_inrange(ctx, sess, kt, names, rp, guard=live, what="sparse Jaref kernel")
       else:
         want = 0.0
         for i in range(nv):
@@ -357,7 +375,7 @@ def unit_jaref(name, is_sparse, nv, dpt, compact, U):
       kt = lib.kernel_thread(k, unroll=U, cap=nv + 2, alias_inout=False, tid=(z3.Int("w"), z3.Int("e"), ds))
       w, e, _ = kt.tid
       live = e < kt.pre("nefc_in", w)
-      sess = ctx.session(kt.bg + [w >= 0, e >= 0])
+      sess = ctx.session(kt.bg + dense_shapes(kt, nv))
       ctx.reach(sess, f"twin:live-row/dofstart={ds}", live)
       want = 0.0
       for i in range(ds * dpt, min(nv, ds * dpt + dpt)):
